@@ -152,10 +152,14 @@ class Case:
     def build(self):
         real, cells = {}, []
         order = []
+        self.later = {}
         for a, v in self.consts.items():
             if v is None:
                 continue
-            real[a] = v
+            if v == '' and isinstance(v, str):
+                self.later[a] = v          # an explicit empty text: model.set_cell_value after compilation
+            else:
+                real[a] = v
             cells.append(f'{cp(a)}~c~{evalwire.wire_scalar(v)}')
             order.append(a)
         ranges = ranges_in(self.expr, set())
@@ -174,7 +178,7 @@ class Case:
                 for x in row:
                     if x not in order and x != ENTRY:
                         order.append(x)
-                        cells.append(f'{cp(x)}~c~T:')        # build_ranges creates XLCell(addr, '')
+                        cells.append(f'{cp(x)}~c~Z')         # build_ranges creates XLCell(addr, None): BLANK
         text = '=' + render(self.expr)
         real[ENTRY] = text
         self.real = real
@@ -204,6 +208,8 @@ class Real:
     def run(self, case):
         from xlcalculator import ModelCompiler, Evaluator
         model = ModelCompiler().read_and_parse_dict(case.real, default_sheet=S1)
+        for a, v in getattr(case, 'later', {}).items():
+            model.set_cell_value(a, v)
         ev = Evaluator(model, namespace=self.ns)
         del self.log[:]
         out = evalwire.canon_result(ev.evaluate, ENTRY)
@@ -272,6 +278,14 @@ def exhaustive_cases(thorough):
         ('and-range3', lambda: ('and', [spyw(1, rng('B1:B3')), spyw(2, lit(True))])),
         ('or-range3', lambda: ('or', [spyw(1, rng('B1:B3')), spyw(2, lit(True))])),
     ]
+    # explicit empty-text cells (set_cell_value(addr, '')) next to blanks and never-set range members
+    withempty = TRUTH_VALUES + ['']
+    for tag, mk in shapes1[:5] + shapes1[10:12]:
+        cases.append(Case(tag + '-emptytext', consts_of(('',)), [], mk()))
+    for tag, mk in shapes2:
+        for vals in assignments(2, withempty):
+            if '' in vals:
+                cases.append(Case(tag + '-emptytext', consts_of(vals), [], mk()))
     vals3 = TRUTH_VALUES if thorough else [True, False, 0, 2.5, None]
     for tag, mk in shapes3:
         for vals in assignments(3, vals3):
@@ -499,6 +513,13 @@ def run(ctx):
         inp = d['input']
         c = Case('replay', {}, [], None)
         c.real, c.text, c.line = inp['cells'], inp['cells'][ENTRY], inp['line']
+        c.later = inp.get('later', {})
+        # never-set range members are BLANK placeholders (XLCell(addr, None)); only explicit '' cells are empty text
+        # (replays written before /repo b6c2c71 carry `T:` for the placeholders)
+        f = c.line.split('\t')
+        f[3] = '|'.join(w[:-2] + 'Z' if w.endswith('~c~T:') and evalwire.un_cp(w.split('~')[0]) not in c.later else w
+                        for w in f[3].split('|'))
+        c.line = '\t'.join(f)
         cases = [c]
     else:
         for c in cases:
@@ -524,7 +545,7 @@ def run(ctx):
             res.count('outcome:' + cls)
             spec, slog = d['spec'], [int(x) for x in d['slog'].split(',') if x]
             mlog = [int(x) for x in d['log'].split(',') if x]
-            inp = {'cells': c.real, 'entry': ENTRY, 'line': c.line}
+            inp = {'cells': c.real, 'entry': ENTRY, 'line': c.line, 'later': getattr(c, 'later', {})}
             text = render(c.expr) if c.expr else c.text
             nspy = text.count('SPY(') + sum(1 for a in c.real if a != ENTRY and str(c.real[a]).startswith('=SPY'))
             if len(slog) < nspy or cls != 'value' or 'NOSUCHFN' in text:
